@@ -193,6 +193,8 @@ def run_case(key, twin=False):
         res2 = dec.decide(ctx, pairs(got, want, ctx), assumptions=assume + [(a, 'ne', Poly()) for a in patoms])
         if res2.status == 'unsat':
             sig = 'pinv-collapse'
+        elif res2.status == 'unknown':
+            return inconclusive(f'expression contains a diagonal pseudo-inverse next to its operand; side-condition query: {res2.reason}', **common)
     return violation(f'{show(e)} does not denote the matrix expression of its operands', model=res.model, signature=sig, kind='arith', twin=twin,
                      obligations=nob, **{k: v for k, v in common.items()})
 
